@@ -28,7 +28,7 @@ class D(RenderDriver):
         ("picosvg.svg_pathops", "skia_path"),
     )
     nt_floor = {"quick": 100, "thorough": 3000}
-    feature_floors = {"clip_on_shape": 50, "clip_on_group": 20, "clip_on_use": 5, "clip_the_clip": 20, "clippath_transform": 20,
+    feature_floors = {"judged.clippath": 250, "judged.clip_on_shape": 200, "judged.clip_on_group": 70, "judged.clip_on_use": 8, "judged.clip_the_clip": 45, "judged.clip_the_clip_with_own_transform": 12, "judged.clippath_transform": 70, "judged.clip_child_transform": 140, "judged.clip_child_rule_sensitive": 200, "judged.clip_rule_evenodd": 110, "clip_on_shape": 50, "clip_on_group": 20, "clip_on_use": 5, "clip_the_clip": 20, "clippath_transform": 20,
                       "clip_child_transform": 20, "clip_rule_evenodd": 30, "src_rule_sensitive": 200, "src_clip_decides": 500}
 
     def gen_doc(self, rng):
